@@ -266,6 +266,8 @@ def gen_C02(rng, tier):
                 L.append("st if f %s %s" % (mkb(c, t1), mk_out(rng, ci, t2)))
                 for cj in CATS_F:
                     L.append("st ifelse f %s %s %s" % (mkb(c, t1), mk_out(rng, ci, t2), mk_out(rng, cj, 5)))
+                    if t1 == 1:     # the same, with ONE condition getter (behind a Mutex) shared by the stream and both of its branches
+                        L.append("st ifelsemx f %s %s %s" % (mkb(c, t1), mk_out(rng, ci, t2), mk_out(rng, cj, 5)))
         L.append("st not %s" % mkb(c, 7))
         for c2 in BC:
             for (t1, t2) in [(1, 2), (2, 2), (3, 2)]:
